@@ -565,6 +565,10 @@ class BuiltinModelLoaderGen(ModelLoaderGen):
                 if self._strict_coercion:
                     self._gen_forbidden_sequence_check(state)
 
+                # a mapping with integer keys must not pass for a sequence (the checks below rely on subscription)
+                with state.builder(f"if isinstance({state.v_data}, CollectionsMapping):"):
+                    self._gen_raise_bad_type_error(state, f"TypeLoadError(CollectionsSequence, {state.v_data})")
+
                 for key, value in enumerate(crown.map):
                     self._gen_crown_dispatch(state, value, key)
 
